@@ -7,6 +7,7 @@ from __future__ import annotations
 
 import hashlib
 import itertools
+import re
 
 from rdflib.term import BNode, Identifier, Literal, URIRef, Variable
 from rdflib.graph import Graph
@@ -16,6 +17,11 @@ def tkey(t):
     """Independent identity of an RDF term (kind, lexical, datatype, language)."""
     if t is None:
         return None
+    c = type(t)
+    if c is URIRef:
+        return ("I", str.__str__(t))
+    if c is BNode:
+        return ("B", str.__str__(t))
     if isinstance(t, Literal):
         dt = t.datatype
         lang = t.language
@@ -69,7 +75,12 @@ def canon(obj, _depth=0, _seen=None):
     by tkey, Graph by (class, identifier), other objects by (class, canon(vars)).
     Insertion order of dicts/sets is deliberately dropped (DESIGN 2.1).
     """
-    if obj is None or isinstance(obj, (bool, int, float)):
+    c = type(obj)
+    if obj is None or c is int or c is bool or c is float:
+        return obj
+    if c is URIRef or c is BNode or c is Literal:
+        return tkey(obj)
+    if c is str:
         return obj
     if isinstance(obj, Identifier):
         return tkey(obj)
@@ -110,8 +121,21 @@ def canon(obj, _depth=0, _seen=None):
     return ("O", type(obj).__name__, canon(d, _depth + 1, _seen))
 
 
+_GEN_ID = re.compile(r"N[0-9a-f]{32}")
+
+
 def digest(x) -> bytes:
-    return hashlib.blake2b(repr(x).encode("utf-8", "surrogatepass"), digest_size=16).digest()
+    """Digest of a canonical form; generated blank-node ids (deterministic counter, DESIGN 2.4)
+    are renamed by order of first occurrence so states differing by a counter offset merge."""
+    r = repr(x)
+    if "N0" in r:
+        names = {}
+
+        def sub(m):
+            return names.setdefault(m.group(0), "GEN%d" % len(names))
+
+        r = _GEN_ID.sub(sub, r)
+    return hashlib.blake2b(r.encode("utf-8", "surrogatepass"), digest_size=16).digest()
 
 
 # ---------------------------------------------------------------------------
